@@ -223,6 +223,11 @@ type rig struct {
 
 	proposals sync.Map // point string -> ProposalSignFact
 	round     string
+
+	// histories across stage points (history_test.go)
+	hist       *histState
+	doneKeys   map[string]int // finished mimic calls per ballot
+	cleanDepth int            // configured depth of the pool's periodic ballot cleaner (evidence only)
 }
 
 func (g *rig) keyOf(point base.StagePoint, sc bool) string {
@@ -279,6 +284,10 @@ func (w bbWrap) Broadcast(bl base.Ballot) error {
 	g.events = append(g.events, ev{Seq: g.seq, Kind: "broadcast-call", Path: g.pathOf(gid), G: gid,
 		Key:  g.keyOf(bl.Point(), isaac.IsSuffrageConfirmBallotFact(bl.SignFact().Fact())),
 		Fact: bl.SignFact().Fact().Hash().String(), Node: bl.SignFact().Node().String()})
+	if h := g.hist; h != nil && bl.SignFact().Node().Equal(g.local.Address()) &&
+		h.key == g.keyOf(bl.Point(), isaac.IsSuffrageConfirmBallotFact(bl.SignFact().Fact())) {
+		h.offered = append(h.offered, bl)
+	}
 	g.mu.Unlock()
 	err := g.bb.Broadcast(bl)
 	if err != nil {
@@ -335,6 +344,15 @@ func (g *rig) onWire(bl base.Ballot) error {
 		if len(tail) > 60 {
 			tail = tail[len(tail)-60:]
 		}
+		if h := g.hist; h != nil && h.key == key && h.phase == 3 {
+			// the conflicting ballot came after ballots of later stage points went
+			// through the broadcaster and the pool
+			g.r.Violation(fmt.Sprintf("equivocation:after-later-heights:%s+%s:stage=%s:sc=%v", recs[0].path, path, stage, sc),
+				fmt.Sprintf("local node %s broadcast two different ballot facts for %s: %s (by %s) and, after %d later stage points up to %d heights above were stored, %s (by %s); case: %s",
+					g.local.Address(), key, recs[0].fact, recs[0].path, h.laterStored, h.k, fact, path, g.round),
+				map[string]any{"case": g.round, "key": key, "later_stage_points_stored": h.laterStored, "distance_k": h.k, "events_for_key": tail})
+			return nil
+		}
 		g.r.Violation(fmt.Sprintf("equivocation:%s+%s:stage=%s:sc=%v", ps[0], ps[1], stage, sc),
 			fmt.Sprintf("local node %s broadcast two different ballot facts for %s: %s (by %s) and %s (by %s); round: %s",
 				g.local.Address(), key, recs[0].fact, recs[0].path, fact, path, g.round),
@@ -355,6 +373,9 @@ func (g *rig) mimicAs(path string) func(base.Ballot) {
 			g.mu.Lock()
 			delete(g.paths, gid)
 			g.inflight--
+			if g.doneKeys != nil {
+				g.doneKeys[doneKey(bl)]++
+			}
 			g.mu.Unlock()
 		}()
 		g.mimic(bl)
@@ -384,6 +405,7 @@ func newRig(r *vlib.Run, tot *totals, idx int, nremotes int) (*rig, error) {
 		return nil, err
 	}
 	g.pool = pool
+	_, g.cleanDepth = pool.VerifCleanDepths()
 	g.bb = isaacstates.NewDefaultBallotBroadcaster(g.local.Address(), pool, g.onWire)
 
 	g.box = isaacstates.NewBallotbox(g.local.Address(),
@@ -1010,9 +1032,22 @@ func genRound(rng *rand.Rand, height int64, nremotes int, state string) roundSpe
 	return s
 }
 
-func runRig(r *vlib.Run, tot *totals, idx, rounds int, fault bool) {
+func runRig(r *vlib.Run, tot *totals, idx, rounds int, mode string) {
+	t0 := time.Now()
+	defer func() { // slowest rig of each mode, evidence only
+		ms := int(time.Since(t0) / time.Millisecond)
+		tot.mu.Lock()
+		if ms > tot.counts["slowest_rig_ms_"+mode] {
+			tot.counts["slowest_rig_ms_"+mode] = ms
+		}
+		tot.mu.Unlock()
+	}()
 	rng := r.Rand(32, idx)
 	nremotes := 2 + rng.Intn(7)
+	if mode == "history" && nremotes < 4 {
+		nremotes = 4 // suffrage confirm ballots need an expelled node and two other remote signers
+	}
+	fault := mode == "fault"
 	g, err := newRig(r, tot, idx, nremotes)
 	if err != nil {
 		r.Inconclusive("rig: " + err.Error())
@@ -1072,6 +1107,19 @@ func runRig(r *vlib.Run, tot *totals, idx, rounds int, fault bool) {
 		return
 	}
 
+	if mode == "history" {
+		for ri := 0; ri < rounds; ri++ {
+			spec := genHistory(r.Rand(35, idx, ri), ri, int64(1000+20*ri), nremotes, string(state))
+			if idx == 2000 && (ri == 3 || ri == 4) {
+				r.Sample(map[string]any{"rig": idx, "remotes": nremotes, "history": spec})
+			}
+			if !r.WithWatchdog(time.Second*180, fmt.Sprintf("history rig %d case %d", idx, ri), func() { g.runHistory(ri, spec) }) {
+				return
+			}
+		}
+		return
+	}
+
 	for ri := 0; ri < rounds; ri++ {
 		spec := genRound(r.Rand(33, idx, ri), int64(1000+10*ri), nremotes, string(state))
 		if idx == 0 && ri < 4 {
@@ -1087,11 +1135,13 @@ func runRig(r *vlib.Run, tot *totals, idx, rounds int, fault bool) {
 func TestC08(t *testing.T) {
 	r := vlib.Start(t, "C08", vlib.LevelExploration)
 	defer r.Finish()
-	r.SetRule("case = one round on a fresh stage point: 2-8 remote suffrage nodes deliver INIT, ACCEPT or suffrage-confirm ballots (1..n distinct facts) concurrently through Ballotbox.Vote or the mimic function, in 25% of rounds the real baseBallotHandler makes and timer-broadcasts the local ballot for the same point, in 30% pooled ballots are re-broadcast, 0-2 ballots for other points; a yield or 1-200us sleep follows every pool check; distinct = (kind, remotes, facts, handler, rebroadcast, state, overlap, observed order of checks and wire broadcasts); non-trivial = at least two distinct facts or the handler takes part; plus 40/400 fault rounds on one extra rig (storage refuses writes during the first local ballot of a point)")
+	r.SetRule("case = one round on a fresh stage point: 2-8 remote suffrage nodes deliver INIT, ACCEPT or suffrage-confirm ballots (1..n distinct facts) concurrently through Ballotbox.Vote or the mimic function, in 25% of rounds the real baseBallotHandler makes and timer-broadcasts the local ballot for the same point, in 30% pooled ballots are re-broadcast, 0-2 ballots for other points; a yield or 1-200us sleep follows every pool check; distinct = (kind, remotes, facts, handler, rebroadcast, state, overlap, observed order of checks and wire broadcasts); non-trivial = at least two distinct facts or the handler takes part; plus 40/400 fault rounds on one extra rig (storage refuses writes during the first local ballot of a point); plus 24/720 history cases on 2/6 extra rigs = history ACROSS stage points: (1) the local ballot for stage point P (INIT/ACCEPT/suffrage-confirm, round 0 or 1, height H) is broadcast through mimic-direct, mimic-box and/or the handler (0-2 remote facts concurrently; refused local ballots are kept), (2) ballots of 1..~10 LATER stage points (later stage/round of H and heights up to H+k, k=1+case%6, in order or shuffled) go through the same broadcaster and pool as the node's own ballots (mimic-direct, mimic-box, handler) or other nodes' ballots (Broadcast + pool.SetBallot), no cleanup step is ever run, (3) a different fact for P is offered through mimic-direct, mimic-box, the handler, re-broadcast of the refused local ballots and of the pooled one, sequentially or concurrently; distinct = (kind, round, path of the first broadcast, refused kept, k, H+k stored, number and paths of later stored stage points, offer paths, concurrent, state); non-trivial (histories_complete) = P was broadcast, a later stage point at H+k is in the pool and at least one offer was made")
 	r.Assume("every remote signer is in the sync sources and in the suffrage, consensus is allowed, the node is in Syncing or Broken (the preconditions of the mimic path)")
 	r.Assume("only ballots handed to the network function are judged; signing without broadcasting is not")
 	r.Assume("remote ballots pass Ballot.IsValid (checked by the harness for every generated ballot)")
 	r.Assume("fault phase (beyond the property's quantifier, which is schedules only): on one extra rig the pool's leveldb storage refuses every write (hook H3, leveldbstorage.VerifFaultArm) while the first local ballot for a point is made, then works again for a different second one and a re-broadcast; same oracle")
+
+	r.Assume("the pool's periodic cleaner (pool daemon, 33-minute ticker) does not run within a case and the harness never calls a cleanup step: removal of old ballots by expiry is neither produced nor judged")
 
 	if raceEnabled {
 		// zerolog marshals the value of Context.Interface() eagerly, even for a
@@ -1110,15 +1160,26 @@ func TestC08(t *testing.T) {
 		wg.Add(1)
 		go func(i int) {
 			defer wg.Done()
-			runRig(r, tot, i, rounds, false)
+			runRig(r, tot, i, rounds, "rounds")
 		}(i)
 	}
 	// fault phase (one rig: the fault point of the storage hook is process-wide)
 	wg.Add(1)
 	go func() {
 		defer wg.Done()
-		runRig(r, tot, 1000, r.N(40, 400), true)
+		runRig(r, tot, 1000, r.N(40, 400), "fault")
 	}()
+	// histories across stage points: sign P, store later stage points up to
+	// k=1..6 heights above, offer a different fact for P through every path
+	hrigs := r.N(2, 6)
+	hcases := r.N(12, 120) // 24 / 720 histories; k = 1 + case%6
+	for i := 0; i < hrigs; i++ {
+		wg.Add(1)
+		go func(i int) {
+			defer wg.Done()
+			runRig(r, tot, 2000+i, hcases, "history")
+		}(i)
+	}
 	wg.Wait()
 
 	tot.mu.Lock()
@@ -1130,6 +1191,9 @@ func TestC08(t *testing.T) {
 	sort.Strings(keys)
 	for _, k := range keys {
 		r.Count(k, tot.counts[k])
+	}
+	if tot.counts["histories_complete_distance_beyond_pool_clean_depth"] == 0 {
+		r.Inconclusive("no history signed a stage point, stored later stage points more heights above than the pool's cleaner keeps and offered a different fact again")
 	}
 	if tot.counts["rounds_with_two_or_more_signers_past_the_check"] == 0 {
 		r.Inconclusive("no round had two signers past the pool check: nothing could refute the property")
